@@ -96,12 +96,16 @@ def ticks_exact(notes, pq):
     return True
 
 
-def pedal_case(notes, ctrl, counter, thr=None, walk="pairs", pq=None, ticks=None):
+def pedal_case(notes, ctrl, counter, thr=None, walk=None, pq=None, ticks=None, exact=None):
+    """walk: 'pairs' (25 assignments covering every ordered pair of thresholds), 'updown' (ascending then
+    descending) or None = cycled: pairs on every 4th case of the space, updown on the others."""
     pq = PQ[counter % 3] if pq is None else pq
     if ticks is None:
         ticks = 1 if (counter // 3) % 2 == 1 else 0
-    if ticks and not ticks_exact(notes, pq):
+    if ticks and not (exact[counter % 3] if exact is not None else ticks_exact(notes, pq)):
         ticks = 0
+    if walk is None:
+        walk = "pairs" if counter % 4 == 0 else "updown"
     c = {"k": "pedal", "notes": notes, "ctrl": ctrl, "pq": pq, "ticks": ticks, "walk": walk}
     if thr is not None:
         c["thr"] = thr
@@ -114,10 +118,11 @@ def product_space(nls, css, block=None, **kw):
 
     def gen():
         for ni, nl in enumerate(nls):
+            exact = [ticks_exact(nl, pq) for pq in PQ]
             for ci, cs in enumerate(css):
                 if block is not None and (ni + ci) % block[0] != block[1]:
                     continue
-                yield pedal_case(nl, cs, ni + ci, **kw)
+                yield pedal_case(nl, cs, ni + ci, exact=exact, **kw)
 
     return gen
 
@@ -133,13 +138,18 @@ SAME3 = [(60, 60, 60)]
 
 def hist_configs(tier):
     """small configurations on which every assignment history is run"""
-    nls = note_lists(1, G3) + note_lists(2, G3, [(60, 60)])
     if tier == "thorough":
-        nls += note_lists(2, G3, [(60, 61)])
+        nls = note_lists(1, G3) + note_lists(2, G3)
+        vals = (64, 65, 127)
+    else:
+        iv = [(0, 1), (0, 2), (1, 1), (1, 2)]
+        nls = [[[60, 0, fs(a), fs(b)]] for a, b in iv]
+        nls += [[[60, 0, fs(a), fs(b)], [60, 1, fs(c), fs(d)]] for (a, b), (c, d) in product(iv, repeat=2)]
+        vals = (65, 127)
     css = []
-    for v in (64, 65, 127):
+    for v in vals:
         css.append([[64, fs(H(1)), v]])
-        for t2 in (1, H(3), H(5)):
+        for t2 in (H(3), H(5)):
             css.append([[64, fs(H(1)), v], [64, fs(t2), 0]])
     css.append([[64, fs(H(1)), 127], [64, fs(H(3)), 64], [64, fs(H(5)), 0]])
     css.append([[67, fs(H(1)), 127]])
@@ -195,35 +205,37 @@ def na_cases(tier):
 
 def spaces(tier, seed):
     sp = []
+    thorough = tier == "thorough"
+    walks = "fresh part per threshold {0,63,64,126,127} + assignment walk (all 25 ordered threshold pairs on every 4th case, up/down on the others)"
     n012 = note_lists(0, G4) + note_lists(1, G4) + note_lists(2, G4)
     sp.append(Space(
         "pedal-core", product_space(n012, control_streams(2, PT6, K4)), True,
-        "<=2 notes (ordered, pitches 60/61, first 60, channels 0/1), on<=off on grid 0..3; <=2 control events at "
-        "distinct increasing times from {.5,1,1.5,2,2.5,3.5}, kinds cc64 in {0,64,127} and cc67=127; thresholds "
-        "{0,63,64,126,127} fresh + a 25-assignment walk covering every ordered threshold pair; (ppq,mpq) and tick "
-        "keys cycled"))
+        "0-2 notes (ordered, pitches 60/61, first 60, channels 0/1), on<=off on grid 0..3; <=2 control events at "
+        "distinct increasing times from {.5,1,1.5,2,2.5,3.5}, kinds cc64 in {0,64,127} and cc67=127; " + walks +
+        "; (ppq,mpq) and tick keys cycled"))
     sp.append(Space(
         "three-same-pitch", product_space(note_lists(3, G3, SAME3), control_streams(2, PT5, [[64, 127], [64, 0]])), True,
         "3 notes of pitch 60 (ordered), on<=off on grid 0..2; <=2 pedal events values {0,127} at distinct increasing "
-        "times from {.5,1,1.5,2,2.5}; thresholds as pedal-core"))
+        "times from {.5,1,1.5,2,2.5}; thresholds/walks as pedal-core"))
+    KT = K4 if thorough else K4[:3]
     sp.append(Space(
         "pedal-ties", product_space(note_lists(1, G3) + note_lists(2, G3),
-                                    [c for c in control_streams(2, PT3, K4, allow_equal=True) if len(c) == 2]), True,
+                                    [c for c in control_streams(2, PT3, KT, allow_equal=True) if len(c) == 2]), True,
         "1-2 notes on grid 0..2; exactly 2 control events, every ordered pair of times from {.5,1,1.5} including "
-        "equal times and decreasing (unsorted) streams, kinds as pedal-core"))
-    B3 = 8
-    blk = None if tier == "thorough" else (B3, seed % B3)
+        "equal times and decreasing (unsorted) streams, kinds cc64 in {0,64,127}" + (" and cc67=127" if thorough else "")))
+    B3 = 16
+    blk = None if thorough else (B3, seed % B3)
     sp.append(Space(
         "three-notes", product_space(note_lists(3, G3), control_streams(2, PT5, K4), block=blk), True,
         "3 notes (pitch patterns 60xx over {60,61}), grid 0..2; <=2 control events at increasing times from "
-        "{.5,1,1.5,2,2.5}, kinds K4" + ("" if blk is None else "; quick: diagonal block %d of %d of the product" % (blk[1], B3))))
-    BW = 64
-    blk = None if tier == "thorough" else (BW, seed % BW)
+        "{.5,1,1.5,2,2.5}, kinds as pedal-core" + ("" if blk is None else "; quick: diagonal block %d of %d of the product" % (blk[1], B3))))
+    BW = 128
+    blk = None if thorough else (BW, seed % BW)
     sp.append(Space(
         "pedal-wide", product_space(n012, control_streams(3, PT8, K5), block=blk), True,
-        "<=2 notes on grid 0..3; <=3 control events at increasing times from {0,.5,...,3.5}, kinds cc64 in "
+        "0-2 notes on grid 0..3; <=3 control events at increasing times from {0,.5,...,3.5}, kinds cc64 in "
         "{0,64,65,127} and cc67=127" + ("" if blk is None else "; quick: diagonal block %d of %d of the product" % (blk[1], BW))))
-    if tier == "thorough":
+    if thorough:
         sp.append(Space(
             "three-notes-grid4", product_space(note_lists(3, G4), control_streams(2, PT6, [[64, 127], [64, 0]]),
                                                walk="updown"), True,
@@ -247,17 +259,17 @@ def spaces(tier, seed):
         "ascending+descending assignment walk"))
     sp.append(Space(
         "note-array", na_cases(tier), True,
-        "1-2 notes with on<=off over times {0,1/10,1/3,1/2,41/20}" + (" + {1/960,7/4}" if tier == "thorough" else "") +
+        "1-2 notes with on<=off over times {0,1/10,1/3,1/2,41/20}" + (" + {1/960,7/4}" if thorough else "") +
         "; 3 control streams (none / extending pedal / other controller + never lifted pedal); every (ppq,mpq) of "
-        "{(480,500000),(96,600000),(7,2000000),(1000,1000000)}" + (" + {(480,451128),(384,500000)}" if tier == "thorough" else "") +
+        "{(480,500000),(96,600000),(7,2000000),(1000,1000000)}" + (" + {(480,451128),(384,500000)}" if thorough else "") +
         "; with and without note_on_tick/note_off_tick keys; thresholds {0,64,127}"))
     nls, css = hist_configs(tier)
-    inits = [64, 0, 127] if tier == "quick" else T5
+    inits = T5 if thorough else [64, 0, 127]
     sp.append(Space(
         "histories", [{"k": "hist", "notes": nl, "ctrl": cs, "init": i0} for nl in nls for cs in css for i0 in inits], True,
-        "per configuration (1 note or 2 notes of one pitch on grid 0..2" + (", or pitches 60/61" if tier == "thorough" else "") +
-        "; 14 pedal streams) and initial threshold in %r: every sequence of 1..3 assignments over {0,63,64,126,127} "
-        "(155 histories) on a fresh part each" % (inits,)))
+        ("per configuration (%d note lists: 1 note or 2 notes%s on grid 0..2; %d control streams) and initial threshold in %r: "
+         "every sequence of 1..3 assignments over {0,63,64,126,127} (155 histories), each on a fresh part")
+        % (len(nls), "" if thorough else " of one pitch", len(css), inits)))
     sp.append(Space(
         "tracks", track_layouts(tier), True,
         "performances of 1-3 parts; per part note tracks from 8 lists over {0,1,7}, control tracks from 5 lists "
@@ -426,6 +438,7 @@ def eval_pedal(case):
     refs = {}
     fresh = {}
     exts = []
+    rebuild_at = (min(thr_list), 64)
     for thr in thr_list:
         refs[thr] = M.ref_sound(mnotes, ped, thr)
         ctx = "fresh part, threshold %d" % thr
@@ -442,7 +455,7 @@ def eval_pedal(case):
         so = sound_offs(pp)
         exts.append(str(check_sound(res, notes, so, refs[thr], ctx)))
         fresh[thr] = so
-        res.transitions += check_note_array(res, pp, notes, pq, ctx)
+        res.transitions += check_note_array(res, pp, notes, pq, ctx, rebuild=thr in rebuild_at)
     # raising the threshold never lengthens a note
     st = sorted(fresh)
     for a, b in zip(st, st[1:]):
